@@ -29,7 +29,7 @@
 
 extern volatile int g_myth_init_state;
 
-static int count_tasks(void) {
+static int count_tasks_once(void) {
   DIR * d = opendir("/proc/self/task");
   struct dirent * e; int n = 0;
   if (!d) return -1;
@@ -37,6 +37,15 @@ static int count_tasks(void) {
   closedir(d);
   return n;
 }
+
+/* a joined thread can stay visible in /proc for a moment after pthread_join returned: poll until the
+   expected number is seen, for at most 300 ms */
+static int count_tasks_expect(int expect) {
+  int i, n = -1;
+  for (i = 0; i < 300; i++) { n = count_tasks_once(); if (n == expect) break; usleep(1000); }
+  return n;
+}
+static int count_tasks(void) { return count_tasks_once(); }
 
 #define NT 24
 static volatile int t_rank[NT], t_affn[NT], t_aff0[NT];
@@ -87,7 +96,7 @@ static int do_hist(char * spec) {
     else if (how == 'g') { myth_globalattr_set_n_workers(NULL, n); ret = myth_init(); }
     else if (how == 'i') { ret = myth_init(); }
     nw = myth_get_num_workers();
-    printf("cycle %d pre=%s ret=%d nw=%d tasks=%d main=%d ranks=", k, pre, ret, nw, count_tasks(), myth_get_worker_num());
+    printf("cycle %d pre=%s ret=%d nw=%d tasks=%d main=%d ranks=", k, pre, ret, nw, count_tasks_expect(nw), myth_get_worker_num());
     {
       myth_thread_t th[NT];
       for (i = 0; i < NT; i++) { t_rank[i] = -7; th[i] = myth_create(probe, (void *)(long)i); }
@@ -116,7 +125,7 @@ static int do_hist(char * spec) {
     fflush(stdout);
     if (!nofini) {
       myth_fini();
-      printf("fini %d state=%d tasks=%d\n", k, g_myth_init_state, count_tasks());
+      printf("fini %d state=%d tasks=%d\n", k, g_myth_init_state, count_tasks_expect(1));
       fflush(stdout);
     }
   }
@@ -157,7 +166,7 @@ static void * racer(void * arg) {
       if (first == me) {
         printf("race %d rets=", c);
         for (i = 0; i < K; i++) printf("%s%d", i ? "," : "", r_ret[i]);
-        printf(" winners=%d nw=%d tasks=%d\n", winners, myth_get_num_workers(), count_tasks());
+        printf(" winners=%d nw=%d tasks=%d\n", winners, myth_get_num_workers(), count_tasks_expect(K + myth_get_num_workers() - 1));
         fflush(stdout);
         myth_fini();
       }
@@ -173,7 +182,7 @@ static int do_race(int k, int c) {
   for (i = 1; i < K; i++) pthread_create(&th[i], NULL, racer, (void *)i);
   racer((void *)0);
   for (i = 1; i < K; i++) pthread_join(th[i], NULL);
-  printf("race-done state=%d tasks=%d\n", g_myth_init_state, count_tasks());
+  printf("race-done state=%d tasks=%d\n", g_myth_init_state, count_tasks_expect(1));
   return 0;
 }
 
